@@ -97,6 +97,36 @@ func (p polySpec) evals() []*big.Int {
 				f[i&255] = p.Vals[k].value()
 			}
 		}
+	case "cancel": // non-zero values confined to one half (Base 0: lower, 1: upper) that SUM to zero (v, ..., -(v+...))
+		sum := new(big.Int)
+		used := map[int]bool{}
+		last := -1
+		for k, i := range p.Idx {
+			pos := (i & 127) | (p.Base&1)<<7
+			if used[pos] {
+				continue
+			}
+			used[pos] = true
+			if last >= 0 {
+				f[last] = hx.ExpandFr(p.Seed, "cancel", k)
+				if p.Seed%3 == 0 {
+					f[last] = big.NewInt(int64(1 + k))
+				}
+				sum.Add(sum, f[last])
+			}
+			last = pos
+		}
+		if last >= 0 {
+			f[last] = ref.FrNeg(sum)
+		}
+	case "steps": // piecewise constant: runs of equal neighbouring evaluations of length Base+1
+		run := p.Base + 1
+		for i := range f {
+			f[i] = hx.ExpandFr(p.Seed, "steps", i/run)
+			if p.Seed%2 == 0 {
+				f[i] = big.NewInt(int64((i / run) % 3))
+			}
+		}
 	case "monomial255": // X^255 in evaluation form
 		for i := range f {
 			f[i] = new(big.Int).Exp(big.NewInt(int64(i)), big.NewInt(255), ref.R)
@@ -121,7 +151,7 @@ func genScalarHex(t *rapid.T, label string) string {
 }
 
 func genPoly(t *rapid.T, label string) polySpec {
-	kind := rapid.SampledFrom([]string{"zero", "const", "onehot", "sparse", "sparse", "dense", "dense", "max", "ramp", "recipe", "recipe"}).Draw(t, label+"_kind")
+	kind := rapid.SampledFrom([]string{"zero", "const", "onehot", "sparse", "sparse", "dense", "dense", "max", "ramp", "recipe", "recipe", "cancel", "steps"}).Draw(t, label+"_kind")
 	p := polySpec{Kind: kind}
 	switch kind {
 	case "const":
@@ -134,6 +164,13 @@ func genPoly(t *rapid.T, label string) polySpec {
 		p.Idx = rapid.SliceOfN(rapid.IntRange(0, 255), 1, 6).Draw(t, label+"_idxs")
 	case "dense", "ramp":
 		p.Seed = rapid.Uint64().Draw(t, label+"_seed")
+	case "cancel":
+		p.Seed = rapid.Uint64().Draw(t, label+"_seed")
+		p.Base = rapid.IntRange(0, 1).Draw(t, label+"_half")
+		p.Idx = rapid.SliceOfN(rapid.IntRange(0, 127), 2, 5).Draw(t, label+"_idxs")
+	case "steps":
+		p.Seed = rapid.Uint64().Draw(t, label+"_seed")
+		p.Base = rapid.SampledFrom([]int{1, 2, 7, 31, 127}).Draw(t, label+"_run")
 	case "recipe":
 		p.Base = rapid.SampledFrom([]int{0, 0, 5, 1}).Draw(t, label+"_base")
 		p.Idx = rapid.SliceOfN(rapid.IntRange(0, 255), 1, 4).Draw(t, label+"_idxs")
@@ -155,11 +192,12 @@ type opening struct {
 }
 
 type openSet struct {
-	Label string     `json:"label"`
-	Polys []polySpec `json:"polys"`
-	Open  []opening  `json:"open"`
-	Shape string     `json:"shape"`           // generator class (informational)
-	Noise uint64     `json:"noise,omitempty"` // seed of unrelated API calls executed before / in between (0 = quiet process)
+	Label  string     `json:"label"`
+	Polys  []polySpec `json:"polys"`
+	Open   []opening  `json:"open"`
+	Shape  string     `json:"shape"`             // generator class (informational)
+	Noise  uint64     `json:"noise,omitempty"`   // seed of unrelated API calls executed before / in between (0 = quiet process)
+	ShareY bool       `json:"share_y,omitempty"` // openings with equal claimed values pass the SAME *fr.Element
 }
 
 func genLabel(t *rapid.T) string {
@@ -259,6 +297,7 @@ func genOpenSet(t *rapid.T, maxN int, numCPU int) openSet {
 		}
 		os.Open = append(os.Open, o)
 	}
+	os.ShareY = rapid.IntRange(0, 3).Draw(t, "share_y") == 0
 	return os
 }
 
@@ -309,6 +348,7 @@ func (os openSet) build() (*builtSet, error) {
 		}
 		b.commRef = append(b.commRef, hx.FromImpl(&comm[i]))
 	}
+	sharedY := map[string]*fr.Element{}
 	for i, o := range os.Open {
 		var ptr *banderwagon.Element
 		if o.Share > 0 {
@@ -326,7 +366,16 @@ func (os openSet) build() (*builtSet, error) {
 		b.zs = append(b.zs, uint8(o.Z))
 		b.zsInt = append(b.zsInt, o.Z)
 		y := hx.FrFromBig(b.polysBig[o.Poly][o.Z])
-		b.ys = append(b.ys, &y)
+		yp := &y
+		if os.ShareY {
+			key := b.polysBig[o.Poly][o.Z].Text(16)
+			if prev, ok := sharedY[key]; ok {
+				yp = prev
+			} else {
+				sharedY[key] = yp
+			}
+		}
+		b.ys = append(b.ys, yp)
 		b.ysBig = append(b.ysBig, b.polysBig[o.Poly][o.Z])
 		_ = i
 	}
@@ -363,6 +412,9 @@ func (os openSet) shapeLabels(numCPU int) (labels []string, distinctZ int) {
 	}
 	if shared {
 		labels = append(labels, "shared_pointer")
+	}
+	if os.ShareY {
+		labels = append(labels, "shared_y_pointer")
 	}
 	if nonplain {
 		labels = append(labels, "nonplain_commitment")
